@@ -186,11 +186,19 @@ func (reg *ResourceRegistry) addResource(identifier, version string, index *Inde
 	res, ok := reg.resources[identifier]
 	if !ok {
 		res = reg.newResource(identifier)
+	}
+
+	err := res.AddVersion(version, available, currentRelease, preRelease)
+	if err != nil {
+		// Nothing was added: do not register a resource without any version.
+		return err
+	}
+
+	if !ok {
 		reg.resources[identifier] = res
 	}
 	res.Index = index
-
-	return res.AddVersion(version, available, currentRelease, preRelease)
+	return nil
 }
 
 // AddResources adds resources to the registry. Errors are logged, the last one is returned. Despite errors, non-failing resources are still added. Does _not_ select new versions.
